@@ -143,6 +143,8 @@ class Agg:
                     self.notes.append(o.get("v"))
             if r.timed_out:
                 self.timeouts.append(r)
+            elif r.rc == 127 and not r.lines:
+                self.fatals.append(dict(msg="could not execute monitor: " + r.stderr_tail[-300:], ctx="", job=r.job))
             elif r.rc == 2 and not r.done:
                 if not any(f["job"] is r.job for f in self.fatals):
                     self.fatals.append(dict(msg="exit 2: " + r.stderr_tail[-500:], ctx="", job=r.job))
